@@ -14,8 +14,10 @@ import (
 	"encoding/binary"
 	"fmt"
 	"image"
+	"strings"
 
 	webp "github.com/deepteams/webp"
+	"github.com/deepteams/webp/animation"
 
 	. "verifharness/hlib"
 )
@@ -173,6 +175,74 @@ func c17Files(c *Ctx) []c17File {
 	return files
 }
 
+// animView: animation.DecodeBytes on a still (one frame): "E" or canvas, frame count and the frame's pixels.
+func animView(data []byte) (out string) {
+	defer func() {
+		if p := recover(); p != nil {
+			out = "PANIC " + fmt.Sprint(p)
+		}
+	}()
+	a, err := animation.DecodeBytes(data)
+	if err != nil {
+		return "E"
+	}
+	d := "-"
+	if len(a.Frames) > 0 && a.Frames[0].Image != nil {
+		d = pixelDigest(a.Frames[0].Image)
+	}
+	return fmt.Sprintf("%d,%d,%d,%s", a.CanvasWidth, a.CanvasHeight, len(a.Frames), d)
+}
+
+// c17Carriers: the same prefix through every other carrier (readers without Len, readers that deliver a few
+// bytes at a time, bufio; slices whose backing array goes on with the rest of the file, garbage, zeros): each
+// entry point must fail or return what it returns for the complete file, however the bytes arrive.
+func c17Carriers(c *Ctx, f *c17File, n int, full apiResult, fullLine, fullAnim, region string) {
+	p := f.Data[:n:n]
+	check := func(carrier, api, got, want string) {
+		c.D.Evaluations++
+		if strings.HasPrefix(got, "PANIC") {
+			c.Violate("panic-on-prefix", api+" panicked on a prefix delivered as "+carrier+": "+got, map[string]any{"kind": f.Kind, "file": hx(f.Data), "prefix_len": n, "carrier": carrier, "cut": region})
+			return
+		}
+		if got != "E" && got != want {
+			c.Count("carrier:" + carrier + ":" + api + ":DIFFERENT")
+			c.Violate("prefix-differs-via-"+carrier, fmt.Sprintf("%s of a %d-byte prefix (cut %s) of a %d-byte %s file, delivered as %s, succeeds with a result other than for the complete file", api, n, region, len(f.Data), f.Kind, carrier),
+				map[string]any{"kind": f.Kind, "file": hx(f.Data), "prefix_len": n, "carrier": carrier, "api": api, "got": got, "full": want, "cut": region})
+			return
+		}
+		if got == "E" {
+			c.Count("carrier:" + carrier + ":" + api + ":fail")
+		} else {
+			c.Count("carrier:" + carrier + ":" + api + ":same")
+		}
+	}
+	for _, rc := range readerCarriers() {
+		r := runAPIsVia(rc.Mk, p)
+		if r.Panic != "" {
+			check(rc.Name, "an io.Reader entry point", "PANIC "+r.Panic, "")
+			continue
+		}
+		if !f.ContainerOnly {
+			check(rc.Name, "Decode", r.Dec, full.Dec)
+		}
+		check(rc.Name, "DecodeConfig", r.Cfg, full.Cfg)
+		check(rc.Name, "GetFeatures", r.Feat, full.Feat)
+	}
+	for _, sc := range sliceCarriers(f.Data, n) {
+		pl, pp := safeParse(sc.Data)
+		got := pl
+		if pl != "PANIC" && pp.ErrClass != 0 {
+			got = "E"
+		} else if pl == "PANIC" {
+			got = "PANIC in container.Parser"
+		}
+		check(sc.Name, "container.NewParser", got, fullLine)
+		if !f.ContainerOnly {
+			check(sc.Name, "animation.DecodeBytes", animView(sc.Data), fullAnim)
+		}
+	}
+}
+
 // c17CodecPrefixes: codec-level truncation on the real decoders.  A cut of the FILE is caught by the container
 // (chunk sizes no longer fit); here the bitstream itself is cut: for every image / ALPH chunk of a still file
 // and every proper prefix of its payload, the chunk is re-wrapped with consistent sizes (chunk size field, pad
@@ -298,7 +368,7 @@ func c17BoolReader(c *Ctx, rng *Rand, n int) {
 
 func main() {
 	Main("c17", func(c *Ctx) {
-		c.D.Rule = "every prefix length 0..len-1 of every generated still file (lossy Partitions 0..3, lossless opaque/alpha, lossy+ALPH raw/compressed, VP8X with ICC before and EXIF/XMP after the image); plus every prefix of every VP8 / VP8L / ALPH payload of those files re-wrapped with consistent sizes, plus random (data, probabilities, extension) runs of bitio.BoolReader; evaluation = Decode+DecodeConfig+GetFeatures on one prefix / one re-wrapped file, or one pair of reader runs; non-trivial = distinct (file kind, chunk and part of chunk where the cut falls, outcome) triple, (file kind, chunk, outcome) for payload cuts, (data length, reads, flag) for reader runs"
+		c.D.Rule = "every prefix length 0..len-1 of every generated still file (lossy Partitions 0..3, lossless opaque/alpha, lossy+ALPH raw/compressed, VP8X with ICC before and EXIF/XMP after the image); plus every prefix of every VP8 / VP8L / ALPH payload of those files re-wrapped with consistent sizes, plus random (data, probabilities, extension) runs of bitio.BoolReader; each prefix is delivered through bytes.Reader, a reader without Len/WriteTo/ReadAt, a reader returning 1..7 bytes per Read, bufio.Reader, and (container.NewParser, animation.DecodeBytes) as slices with spare capacity holding the rest of the file, garbage, zeros; evaluation = Decode+DecodeConfig+GetFeatures on one prefix through one carrier / one re-wrapped file, or one pair of reader runs; non-trivial = distinct (file kind, chunk and part of chunk where the cut falls, outcome) triple, (file kind, chunk, outcome) for payload cuts, (data length, reads, flag) for reader runs"
 		c.D.Notes = append(c.D.Notes,
 			"direct evaluation runs the real codecs on every prefix: it covers the bit readers' end-of-stream handling (VP8 bool decoder, VP8L bit reader, ALPH), which the Coq theorems treat as a parameter of the container/glue layer",
 			"correspondence: container.NewParser on every prefix vs the extracted ParserModel.parse (result class, features, frame payload/alpha digests and lengths); bitio.BoolReader (NewBoolReader + GetBit, state and EOF() after every read) vs the extracted Vp8GoReader.gr_bit on random data / probabilities, most runs reading past the end",
@@ -323,6 +393,13 @@ func main() {
 				c17CodecPrefixes(c, &f, full)
 			}
 			spans := chunkMap(f.Data)
+			fullAnim := ""
+			if !f.ContainerOnly {
+				fullAnim = animView(f.Data)
+				if fullAnim == "E" || strings.HasPrefix(fullAnim, "PANIC") {
+					c.Count("note:animation.DecodeBytes-rejects-generated-still:" + f.Kind)
+				}
+			}
 			for n := 0; n < len(f.Data); n++ {
 				p := f.Data[:n:n]
 				r := runAPIs(p)
@@ -333,6 +410,7 @@ func main() {
 				c.Case(fmt.Sprintf("P %d", n), pl)
 				c.D.Evaluations++
 				region := cutRegion(spans, n)
+				c17Carriers(c, &f, n, full, line, fullAnim, region)
 				c.Count("cut:" + region)
 				replay := map[string]any{"kind": f.Kind, "file": hx(f.Data), "prefix_len": n, "prefix": r, "full": full, "cut": region}
 				noImage := pp.ErrClass == 0 && pp.Format == 3 && !pp.HasAnim && len(pp.Frames) == 0
